@@ -202,13 +202,30 @@ fn exec_t<T: LabelType>(case: &Case, mk: &dyn Fn(L) -> T, r: &mut RunResult) {
         store.apply(&Upd::AddArg(*l));
     }
     let labels: Vec<T> = case.init.iter().map(|l| mk(*l)).collect();
-    let mut set = ArgumentSet::new_with_labels(&labels);
+    let mut set = match catch_unwind(AssertUnwindSafe(|| ArgumentSet::new_with_labels(&labels))) {
+        Ok(s) => s,
+        Err(_) => {
+            r.violations.push(Violation::new("C12", "panic", "ArgumentSet::new_with_labels panicked".into()));
+            return;
+        }
+    };
     for u in &case.pre {
         let c = store.apply(u);
         match u {
-            Upd::AddArg(l) => set.new_argument(mk(*l)),
+            Upd::AddArg(l) => {
+                if catch_unwind(AssertUnwindSafe(|| set.new_argument(mk(*l)))).is_err() {
+                    r.violations.push(Violation::new("C12", "panic", format!("ArgumentSet::new_argument({}) panicked", l)));
+                    return;
+                }
+            }
             Upd::DelArg(l) => {
-                let res = set.remove_argument(&mk(*l));
+                let res = match catch_unwind(AssertUnwindSafe(|| set.remove_argument(&mk(*l)))) {
+                    Ok(res) => res,
+                    Err(_) => {
+                        r.violations.push(Violation::new("C12", "panic", format!("ArgumentSet::remove_argument({}) panicked", l)));
+                        return;
+                    }
+                };
                 if res.is_err() != (c == Applied::Invalid) {
                     r.violations.push(Violation::new("C12", "result", format!("ArgumentSet::remove_argument({}) returned {:?}, model says {:?}", l, res.map(|a| a.id()).ok(), c)));
                     return;
@@ -264,13 +281,24 @@ fn exec_t<T: LabelType>(case: &Case, mk: &dyn Fn(L) -> T, r: &mut RunResult) {
                 }
             }
         }
-        // ids stable for surviving arguments
-        for (id, l) in &before_ids {
-            if store.live.get(l) == Some(id) {
-                if af.argument_set().get_argument(&mk(*l)).map(|a| a.id()).ok() != Some(*id) {
-                    r.violations.push(Violation::new("C12", "id-stability", format!("step {}: id of a{} changed", k + 1, l)));
-                    return;
+        // ids stable for surviving arguments (an observer must not panic either)
+        let moved = catch_unwind(AssertUnwindSafe(|| {
+            for (id, l) in &before_ids {
+                if store.live.get(l) == Some(id) && af.argument_set().get_argument(&mk(*l)).map(|a| a.id()).ok() != Some(*id) {
+                    return Some(*l);
                 }
+            }
+            None
+        }));
+        match moved {
+            Ok(None) => {}
+            Ok(Some(l)) => {
+                r.violations.push(Violation::new("C12", "id-stability", format!("step {}: id of a{} changed", k + 1, l)));
+                return;
+            }
+            Err(_) => {
+                r.violations.push(Violation::new("C12", "panic", format!("after step {}: get_argument panicked", k + 1)));
+                return;
             }
         }
         if let Some(v) = compare(&af, &store, mk, &universe, k + 1) {
